@@ -73,12 +73,12 @@ def AtomParser(string=None):
     bases = [u for u in UNIT_STANDARD.keys() if string.endswith(u)]
     if bases:
         base = max(bases, key=len)
-        string = string[-len(base)-1]
+        string = string[:-len(base)]
         unitid = f"{base:s}"
     else:
         raise Exception('Unknown unit', string, string_bak)
     # parse unit prefix
-    prefkeys = [p for p in UNIT_PREFIXES.keys() if string.endswith(p)]
+    prefkeys = [p for p in UNIT_PREFIXES.keys() if string[1:]==p]
     if prefkeys:
         prefix = max(prefkeys, key=len)
         if isinstance(UNIT_STANDARD[base].prefixes,list) and prefix not in UNIT_STANDARD[base].prefixes:
